@@ -28,17 +28,13 @@ import re
 import sys
 from pathlib import Path
 
-from tables import TranslatorError, cstr
+from tables import SRC, TranslatorError, cstr  # SRC follows VERIF_REPO_ROOT (default /repo)
 
 OUT_NAME = "T_C12.v"
-SRC = Path("/repo/src/pyopenapi_gen")
 
 
 def _src() -> Path:
-    # prop_C12 mutation tests point the translator at a private copy of the tree
-    import os
-    p = os.environ.get("VERIF_C12_SRC")
-    return Path(p) if p else SRC
+    return SRC
 
 
 API = {"add_import", "add_plain_import", "add_relative_import", "add_conditional_import", "add_typing_import",
